@@ -1,42 +1,12 @@
 /-
-  otterdrv — line-protocol driver for the executable models (core Lean only).
-    otterdrv seq        < transcript      judge SEQ transcripts against Spec
+  otterdrv — line-protocol driver for the executable component models (core Lean only).
+    otterdrv <engine> [args] < transcript
+  (the SEQ judge is the separate executable `seqdrv`)
 -/
-import OtterVerif.Spec.Check
 import Driver.Units
-
-open OtterVerif
-
-partial def seqLoop (h : IO.FS.Stream) (cs : Spec.Check.CS) (script : String) (lineNo : Nat) (skipping : Bool)
-    (nScripts nFailed nOps nEv nDead nLoads : Nat) : IO Unit := do
-  let line ← h.getLine
-  if line.isEmpty then
-    let nOps := nOps + cs.nOps; let nEv := nEv + cs.nEvictions; let nDead := nDead + cs.nDeadTouches; let nLoads := nLoads + cs.nLoads
-    IO.println s!"summary scripts={nScripts} failed={nFailed} ops={nOps} evictions={nEv} deadtouch={nDead} loads={nLoads}"
-    return
-  let line := (line.dropEndWhile (fun c => c == '\n' || c == '\r')).toString
-  if line.startsWith "script " then
-    seqLoop h {} ((line.drop 7).toString) 0 false (nScripts + 1) nFailed (nOps + cs.nOps) (nEv + cs.nEvictions) (nDead + cs.nDeadTouches) (nLoads + cs.nLoads)
-  else if skipping then
-    seqLoop h cs script (lineNo + 1) true nScripts nFailed nOps nEv nDead nLoads
-  else
-    match Spec.Check.parseLine line with
-    | .error e =>
-      IO.println s!"FAIL script={script} line={lineNo} :: parse error {e} :: {line}"
-      seqLoop h cs script (lineNo + 1) true nScripts (nFailed + 1) nOps nEv nDead nLoads
-    | .ok l =>
-      let (r, cs') := (Spec.Check.step l).run.run cs
-      match r with
-      | .ok () => seqLoop h cs' script (lineNo + 1) false nScripts nFailed nOps nEv nDead nLoads
-      | .error e =>
-        IO.println s!"FAIL script={script} line={lineNo} :: {e} :: {line}"
-        if (← IO.getEnv "VERIF_DEBUG").isSome then
-          IO.println s!"  STATE now={cs'.s.now} max={cs'.s.maximum} total={cs'.s.totalWeight} m={cs'.s.m.map (fun p => (p.1, p.2.val, p.2.weight, p.2.exp, p.2.ref))} inflight={cs'.s.inflight}"
-        seqLoop h cs' script (lineNo + 1) true nScripts (nFailed + 1) nOps nEv nDead nLoads
 
 def main (args : List String) : IO UInt32 := do
   let stdin ← IO.getStdin
   match args with
-  | ["seq"] => seqLoop stdin {} "" 0 false 0 0 0 0 0 0; return 0
   | cmd :: rest => Driver.Units.dispatch cmd rest stdin
   | [] => IO.eprintln "usage: otterdrv <engine>"; return 2
